@@ -7,7 +7,7 @@ from .. import land
 
 LEVEL = 'exploration'
 ENGINE = 'SEQ'
-TECHNIQUE = 'bounded exhaustive enumeration of call histories (wait/terminate/is_alive/close with timeouts 0 and small, with and without force) over every target behaviour (cooperative, swallowing exceptions, blocked in sleep, holding the interpreter lock in C, SIGSTOPped, finished, dying of an exception, not run, idle) and every worker class, on real workers'
+TECHNIQUE = 'bounded exhaustive enumeration of call histories (wait/terminate/is_alive/close with timeouts 0 and small, with and without force) over every target behaviour (cooperative, swallowing exceptions, blocked in sleep, holding the interpreter lock in C, SIGSTOPped, finished, finished but kept alive by a thread left behind, dying of an exception, not run, idle) and every worker class, on real workers'
 LEVEL_TEXT = ('every history up to the depth bound over the call alphabet x behaviours x the six classes is executed on real workers; per-call oracle: returns within 4*timeout+3 s, never raises, a True answer (or is_alive False) is checked against the real state of the child (thread not alive / pid gone or zombie), after the first observation of death every call answers True at once, terminate(force=True) on process/remote kinds leaves the child dead on return')
 LEVEL_NOTE = 'wall-clock bounds are generous (3 s + 4*timeout) and scaled by a measured load factor; thread kinds cannot run the behaviours that would freeze or stop the checker process itself; terminate(force=True) is not issued where its documented last resort is to SIGTERM the calling process'
 
@@ -24,7 +24,7 @@ def behaviours(kind, quick):
     if kind in ('T', 'PT'):
         b = ['cooperative', 'stubborn', 'finished', 'not-run']
     else:
-        b = ['cooperative', 'stubborn', 'long_sleep', 'gil_hog', 'stopped', 'finished', 'not-run']
+        b = ['cooperative', 'stubborn', 'long_sleep', 'gil_hog', 'stopped', 'finished', 'not-run', 'lingering']
     if len(kind) == 2:
         b.append('idle')
     b += ['dying', 'dying-now']       # the target raises: the calls meet a worker going down on its own (after / without a rendezvous)
@@ -58,7 +58,7 @@ def scripts(quick, tmp):
                     rf = os.path.join(tmp, 'ready.%d' % n)
                     target = {'cooperative': 'cooperative', 'stubborn': 'stubborn', 'long_sleep': 'long_sleep', 'gil_hog': 'gil_hog',
                               'stopped': 'cooperative', 'finished': 'quick_ret', 'not-run': 'quick_ret', 'idle': 'quick_ret',
-                              'dying': 'raise_soon', 'dying-now': 'raise_soon'}[beh]
+                              'dying': 'raise_soon', 'dying-now': 'raise_soon', 'lingering': 'linger_ret'}[beh]
                     create = {'op': 'create', 'var': 'w', 'kind': kind, 'target': target, 'kwargs': {'ready_file': rf}}
                     sc = [create]
                     if beh == 'not-run':
@@ -77,6 +77,10 @@ def scripts(quick, tmp):
                             sc += [{'op': 'wait_file', 'path': rf, 'timeout': 10}]
                         if beh == 'stopped':
                             sc += [{'op': 'kill', 'var': 'w', 'sig': 'STOP'}, {'op': 'sleep', 's': 0.05}]
+                        if beh == 'lingering':
+                            if pers:
+                                sc += [{'op': 'call', 'var': 'w', 'method': 'close'}]
+                            sc += [{'op': 'sleep', 's': 0.2}]
                     npre = len(sc)
                     for h in hist:
                         m, a, k = CALLS[h]
